@@ -26,7 +26,7 @@ META = {
     "not_decided": [
         "the thread schedules themselves",
         "cross-keyspace read atomicity inside lsm-tree (how a super version is chosen for an instant)",
-        "single-key point reads Keyspace::get/contains_key/size_of read at SeqNo::MAX by design: one key cannot witness half a batch within one call",
+        "single-key point reads: that they, too, read at a view instant is decided under C14 (R-C14.6)",
     ],
     "assumptions": ["SequenceNumberCounter::{next,fetch_max,get} are atomic; the tree exposes to a read at instant i exactly versions with seqno < i"],
 }
